@@ -241,6 +241,16 @@ def run(chk, prog):
         raise AnalysisBroken("per-cell TemperatureCalculator::calculate_temperature not found (%d candidates)" % len(cands))
     tf = cands[0]
     chk.analysed(function=tf["full"])
+    # helpers of this file that set cell state (a neutral-state helper extracted by a refactoring) are read in place
+    file_helpers = {}
+    for d_ in tu.decls:
+        if d_["kind"] == "function" and d_.get("body") is not None and d_ is not tf and \
+                (d_.get("file") or "").endswith("TemperatureCalculator.cpp") and d_["full"].split("(")[0] != tf["full"].split("(")[0] and \
+                any(C.is_call(x, name="set_ionic_fraction") or C.is_call(x, name="set_temperature") for x in C.walk_stmt(d_["body"])):
+            file_helpers.setdefault(d_["full"].split("(")[0], d_)
+    if file_helpers:
+        tf = dict(tf)
+        tf["body"] = C.inline_helpers(tf["body"], file_helpers)
     g = C.CFG(tf)
     n2 = n3 = 0
     metal_ions = {nm for nm, _, _ in sets}
